@@ -1966,13 +1966,21 @@ def _item_of_cb(e):
     return ('cbarg',)
 
 
+def _pulled_any(e):
+    return _pulled_next(e) or _pulled_cb(e)
+
+
+def _item_of_any(e):
+    return _item_of_cb(e) if _pulled_cb(e) else _item_of_next(e)
+
+
 ITER_HOOKS = {
     (MAP, None, 'retain'): ({'C01'}, retain_iteration, {'predicate', 'kept', 'removed'}),
     (SET, None, 'retain'): ({'C07'}, retain_iteration, {'predicate', 'kept', 'removed'}),
-    (MAP, 'FromIterator', 'from_iter'): ({'C16'}, lambda pr: bulk_iteration(pr, _pulled_next, _item_of_next), {'item', 'hit', 'append'}),
-    (SET, 'FromIterator', 'from_iter'): ({'C16'}, lambda pr: bulk_iteration(pr, _pulled_next, _item_of_next), {'item', 'hit', 'append'}),
-    (MAP, 'From', 'from'): ({'C16'}, lambda pr: bulk_iteration(pr, _pulled_next, _item_of_next), {'item', 'hit', 'append'}),
-    (SET, 'From', 'from'): ({'C16'}, lambda pr: bulk_iteration(pr, _pulled_next, _item_of_next), {'item', 'hit', 'append'}),
+    (MAP, 'FromIterator', 'from_iter'): ({'C16'}, lambda pr: bulk_iteration(pr, _pulled_any, _item_of_any), {'item', 'hit', 'append'}),
+    (SET, 'FromIterator', 'from_iter'): ({'C16'}, lambda pr: bulk_iteration(pr, _pulled_any, _item_of_any), {'item', 'hit', 'append'}),
+    (MAP, 'From', 'from'): ({'C16'}, lambda pr: bulk_iteration(pr, _pulled_any, _item_of_any), {'item', 'hit', 'append'}),
+    (SET, 'From', 'from'): ({'C16'}, lambda pr: bulk_iteration(pr, _pulled_any, _item_of_any), {'item', 'hit', 'append'}),
     (MAP, 'Clone', 'clone'): ({'C15'}, clone_iteration, {'element'}),
     (SET, 'Clone', 'clone'): ({'C15'}, clone_iteration, {'element'}),
     (MAP, 'PartialEq', 'eq'): ({'C14'}, quantifier_iteration('eq'), {'continued'}),
@@ -1992,7 +2000,7 @@ ITER_HOOKS = {
     ('set::serialization::Vi', 'Visitor', 'visit_seq'): ({'C20'}, lambda pr: bulk_iteration(pr, _pulled_access('next_element'), _item_of_access), {'item', 'hit', 'append'}),
     (MAP, None, 'get_disjoint_mut'): ({'C13'}, precheck_iteration, {'compared'}),
     ('&set::Set', 'Sub', 'sub'): ({'C08'}, sub_iteration, {'kept', 'skipped'}),
-    (SET, 'Extend', 'extend'): ({'C16', 'C07'}, lambda pr: bulk_iteration(pr, _pulled_cb, _item_of_cb), {'item', 'hit', 'append'}),
+    (SET, 'Extend', 'extend'): ({'C16', 'C07'}, lambda pr: bulk_iteration(pr, _pulled_any, _item_of_any), {'item', 'hit', 'append'}),
 }
 
 
